@@ -121,7 +121,7 @@ func checkC16(c *core.Ctx) {
 	}
 	// (1b) dimensions beyond the bound, one configuration each, and an upstream
 	// weighting whose elements cancel exactly
-	for _, bdo := range [][3]int{{1, 5, 4}, {5, 1, 7}, {7, 6, 5}, {1, 33, 2}, {2, 2, 33}, {33, 3, 1}} {
+	for _, bdo := range [][3]int{{1, 5, 4}, {5, 1, 7}, {7, 6, 5}, {1, 33, 2}, {2, 2, 33}, {33, 3, 1}, {257, 2, 2}, {300, 3, 2}, {1000, 1, 1}, {2, 300, 3}, {3, 2, 300}} {
 		for wi := 0; wi < 3; wi++ {
 			bdo, wi := bdo, wi
 			c.Case(fmt.Sprintf("gradbig/%v/w%d", bdo, wi), true, func() core.Verdict {
@@ -317,6 +317,80 @@ func checkC16(c *core.Ctx) {
 		}
 		if outside > 0 {
 			return core.Fail("second layer (Inputs 300, Outputs 300) built from the same Initializers map as a 1x1 layer: %d of 300 default weights lie outside +-sqrt(6/600) = %.4f (the first layer's default initializer was written into the caller's map: map now has %d entries)", outside, bound, len(m2))
+		}
+		return core.Pass()
+	})
+	// (4d) a COPY of the layer value has live pointers of its own
+	c.Case("copy/livepointers", true, func() core.Verdict {
+		w := enum.Generic([]int{2}, 881, 0.5, 3, true)
+		b := enum.Generic([]int{2}, 882, 0.5, 3, true)
+		fc, err := layers.NewFC(&layers.FCConfig{Inputs: 2, Outputs: 2, Initializers: map[string]layers.Initializer{"Weight": fixedInit{t: w}, "Bias": fixedInit{t: b}}})
+		if err != nil {
+			return core.Fail("NewFC: %v", err)
+		}
+		_ = fc.Weights()
+		clone := *fc
+		w2 := enum.Generic([]int{2}, 883, 0.5, 3, true)
+		b2 := enum.Generic([]int{2}, 884, 0.5, 3, true)
+		ws := clone.Weights()
+		*ws[0].Value = rt.Make(w2, true)
+		*ws[1].Value = rt.Make(b2, true)
+		x := enum.Generic([]int{2, 2}, 885, 0.5, 3, true)
+		yc, err := clone.Forward(rt.Make(x, false))
+		if err != nil {
+			return core.Fail("Forward on the copy: %v", err)
+		}
+		if ok, msg := core.Close(rt.Read(yc), fcModel(x, w2, b2), 100); !ok {
+			return core.Fail("a copy of the layer value: parameters replaced through ITS Weights() pointers are not used by ITS Forward: %s", msg)
+		}
+		yo, err := fc.Forward(rt.Make(x, false))
+		if err != nil {
+			return core.Fail("Forward: %v", err)
+		}
+		if ok, msg := core.Close(rt.Read(yo), fcModel(x, w, b), 100); !ok {
+			return core.Fail("replacing parameters through a COPY's Weights() pointers changed the original layer: %s", msg)
+		}
+		return core.Pass()
+	})
+	// (4c) twelve forward/backward passes on ONE layer, alternating batch sizes
+	c.Case("long/alternating", true, func() core.Verdict {
+		w := enum.Generic([]int{3}, 871, 0.5, 3, true)
+		b := enum.Generic([]int{3}, 872, 0.5, 3, true)
+		fc, err := layers.NewFC(&layers.FCConfig{Inputs: 2, Outputs: 3, Initializers: map[string]layers.Initializer{"Weight": fixedInit{t: w}, "Bias": fixedInit{t: b}}})
+		if err != nil {
+			return core.Fail("NewFC: %v", err)
+		}
+		for k := 0; k < 12; k++ {
+			B := []int{1, 3, 1, 2}[k%4]
+			x := enum.Generic([]int{B, 2}, uint64(873+k), 0.5, 3, true)
+			xr := rt.Make(x, true)
+			y, err := fc.Forward(xr)
+			if err != nil {
+				return core.Fail("pass %d Forward: %v", k+1, err)
+			}
+			if ok, msg := core.Close(rt.Read(y), fcModel(x, w, b), 100); !ok {
+				return core.Fail("pass %d (batch %d): %s", k+1, B, msg)
+			}
+			if err := tensor.BackPropagate(y); err != nil {
+				return core.Fail("pass %d BackPropagate: %v", k+1, err)
+			}
+			gx := ref.New([]int{B, 2})
+			sw := w.V[0] + w.V[1] + w.V[2]
+			for i := range gx.V {
+				gx.V[i] = sw
+			}
+			if xr.Gradient() == nil {
+				return core.Fail("pass %d: the tracked input received no gradient", k+1)
+			}
+			if ok, msg := core.Close(rt.Read(xr.Gradient()), gx, 100); !ok {
+				return core.Fail("pass %d (batch %d) input gradient: %s", k+1, B, msg)
+			}
+			for pi, wt := range fc.Weights() {
+				if (*wt.Value).Gradient() == nil {
+					return core.Fail("pass %d: parameter %d received no gradient", k+1, pi)
+				}
+				(*wt.Value).ResetGradContext(true)
+			}
 		}
 		return core.Pass()
 	})
